@@ -74,6 +74,10 @@ structure State where
   cache : Id → Option BBox
   /-- `_updated_layers` of documents -/
   dirty : Id → Bool
+  /-- the keys of `_record.tagged_blocks` of a layer, in stored order (4-character codes as numbers). What the
+  blocks contain is outside this model; WHICH blocks a record carries is what a save writes, and no read-only
+  call may change it (C14). The lists change only through `Op.setBlocks` (edits outside the modelled state). -/
+  blocks : Id → List Nat
 
 /-- pointwise update -/
 def upd {α : Type} (f : Id → α) (i : Id) (v : α) : Id → α := fun j => if j = i then v else f j
@@ -298,6 +302,10 @@ inductive Obs where
   | getitem (g : Id) (i : Int)
   | contains (g x : Id)
   | isVisible (x : Id)
+  /-- any other public property getter or zero-argument query of `x`, found by reflection on the live classes
+  (`name`, `kind`, `opacity`, `blend_mode`, `locks`, `mask`, `effects`, `tagged_blocks`, `has_*`, `is_group`, …):
+  answers from what is stored, writes nothing (the answer itself is outside the model) -/
+  | getter (x : Id)
   /-- an opaque read-only call (composite, numpy, topil …) that read `bbox` of these nodes -/
   | touch (xs : List Id)
   deriving DecidableEq, Repr
@@ -379,6 +387,7 @@ def observe (s : State) : Obs → State × Out
     match isVis s x with
     | .error e => (s, .error e)
     | .ok v => (s, .bool v)
+  | .getter _ => (s, .none)
   | .touch xs => touchAll s xs
 
 /-! ### The mutators of `GroupMixin` -/
@@ -529,7 +538,8 @@ def alloc (s : State) (k : Kind) (psd : Option Id) (bx : BBox) : State :=
     visible := upd s.visible n true
     box := upd s.box n bx
     cache := upd s.cache n none
-    dirty := upd s.dirty n false }
+    dirty := upd s.dirty n false
+    blocks := upd s.blocks n [] }
 
 /-- `Group.new(name, open_folder, parent)` -/
 def opNewGroup (cfg : Cfg) (s : State) (parent : Option Id) : State × Out :=
@@ -643,6 +653,10 @@ inductive Op where
   recomputes the clipping relation, which is not part of this model): no list, pointer, dirty flag or
   cached box changes -/
   | setAttr (x : Id)
+  /-- an edit outside the modelled state left layer `x` with the tagged-block keys `ks` (a new layer or group comes
+  with its blocks, `name` adds the Unicode name, `lock` the protection block, adoption fetches shared blocks …):
+  the harness reports the key list after every EDIT that changed it — never after a read-only call -/
+  | setBlocks (x : Id) (ks : List Nat)
   | observe (o : Obs)
   deriving DecidableEq, Repr
 
@@ -685,6 +699,8 @@ def step (cfg : Cfg) (s : State) (op : Op) : State × Out :=
     | .setLeft x v => opSetOffset cfg s x true v
     | .setTop x v => opSetOffset cfg s x false v
     | .setAttr x => if !s.isLayer x then (s, .error .attributeError) else (s, .none)
+    | .setBlocks x ks =>
+      if !s.isLayer x then (s, .error .attributeError) else ({ s with blocks := upd s.blocks x ks }, .none)
     | .observe o => observe s o
     | _ => (s, .error .attributeError)
 
@@ -702,6 +718,6 @@ def runState (cfg : Cfg) (s : State) (ops : List Op) : State := (run cfg s ops).
 def State.empty (limit : Nat) : State :=
   { next := 0, limit := limit, kind := fun _ => .leaf, children := fun _ => [], parent := fun _ => none,
     psd := fun _ => none, visible := fun _ => true, box := fun _ => BBox.zero, cache := fun _ => none,
-    dirty := fun _ => false }
+    dirty := fun _ => false, blocks := fun _ => [] }
 
 end PsdVerif.TreeSt
